@@ -89,10 +89,17 @@ type negotiatorState struct {
 	// session so that installing the tee (which consumes a negotiator round
 	// before any features are read) does not count as the first list.
 	featuresRead bool
+
+	// cfg is the stream configuration of this session: what the config function
+	// returned the last time it was asked about this session (or, before that,
+	// what it returns for no session in particular).
+	// It travels with the session and not with the Negotiator value, which may be
+	// used for any number of sessions, also at the same time.
+	cfg StreamConfig
 }
 
 func negotiator(f func(*Session, *StreamConfig) StreamConfig) Negotiator {
-	cfg := f(nil, nil)
+	initial := f(nil, nil)
 	return func(ctx context.Context, in, out *stream.Info, s *Session, data interface{}) (mask SessionState, rw io.ReadWriter, restartNext interface{}, err error) {
 		nState, ok := data.(negotiatorState)
 		// If no state was passed in, this is the first negotiate call so make up a
@@ -101,8 +108,10 @@ func negotiator(f func(*Session, *StreamConfig) StreamConfig) Negotiator {
 			nState = negotiatorState{
 				doRestart: true,
 				cancelTee: nil,
+				cfg:       initial,
 			}
 		}
+		cfg := nState.cfg
 
 		// This is a secret internal API that lets us use this same negotiator
 		// implementation in the websocket package without copy/pasting the entire
@@ -209,6 +218,7 @@ func negotiator(f func(*Session, *StreamConfig) StreamConfig) Negotiator {
 		}
 
 		cfg = f(s, &cfg)
+		nState.cfg = cfg
 		mask, rw, err = negotiateFeatures(ctx, s, !nState.featuresRead, websocket, cfg.Features)
 		nState.featuresRead = true
 		nState.doRestart = rw != nil
